@@ -192,8 +192,8 @@ def _warm(pp):
     thread then prints a value it has printed before, the other a value with many strings never seen"""
     import warnings
     seen = [['%s %03d ' % (w, i) * 12 for i in range(1)] for w in ('alpha', 'beta', 'gamma')]
-    never = ['never seen %03d ' % i * 10 for i in range(70)]
-    more_bytes = [b'bin %03d ' % i * 12 for i in range(70)]
+    never = ['never seen %03d ' % i * 10 for i in range(66)]
+    more_bytes = [b'bin %03d ' % i * 12 for i in range(8)]
     with warnings.catch_warnings():
         warnings.simplefilter('ignore')
         for i in range(300):
